@@ -773,6 +773,36 @@ func c04Identity(c *Ctx, rd string) {
 		}
 	}
 	c.Check(nHdr >= 4, rd, "identity header reads found", "-", fmt.Sprintf("%d", nHdr), fmt.Sprintf("only %d reads of identity-bearing headers found (expected 4 in internal/realip)", nHdr))
+	// dependencies are not descended into, so the middlewares of the HTTP libraries in the module
+	// graph that rewrite RemoteAddr from client-supplied headers are named here: installing one of
+	// them hands the recorded address back to whoever sends the request
+	headerTrusting := map[string]string{
+		"github.com/go-chi/chi/v5/middleware.RealIP": "sets RemoteAddr from True-Client-IP / X-Real-IP / X-Forwarded-For of any peer",
+		"github.com/go-chi/chi/middleware.RealIP":    "sets RemoteAddr from X-Real-IP / X-Forwarded-For of any peer",
+		"github.com/gorilla/handlers.ProxyHeaders":   "sets RemoteAddr, scheme and host from X-Forwarded-* of any peer",
+	}
+	nDeny := 0
+	for _, fn := range p.Funcs {
+		for _, b := range fn.Blocks {
+			for _, in := range b.Instrs {
+				for _, op := range in.Operands(nil) {
+					if op == nil || *op == nil {
+						continue
+					}
+					f, ok := (*op).(*ssa.Function)
+					if !ok || f.Pkg == nil {
+						continue
+					}
+					name := f.Pkg.Pkg.Path() + "." + f.Name()
+					if why, bad := headerTrusting[name]; bad {
+						nDeny++
+						c.Fail(rd, fmt.Sprintf("%s installs %s#%d", p.FName(fn), name, nDeny), p.Pos(in.Pos()), name+" "+why+": it runs after realip.Middleware decided whether the peer is a trusted proxy, so an untrusted client chooses the address that the access log and the audit record show")
+					}
+				}
+			}
+		}
+	}
+	c.PassTrivial(rd, "no header-trusting middleware of a dependency is installed", "-", fmt.Sprintf("%d names on the list, %d references", len(headerTrusting), nDeny))
 	// trustedClient: (x, true) only behind hopTrusted(direct peer)
 	if tc := p.Func("internal/realip.trustedClient"); tc == nil {
 		c.Undecided(rd, "realip.trustedClient", "-", "function not found")
